@@ -1,4 +1,4 @@
-CONSTANTS DELIM = 44  MaxArr = 3  MaxStr = 3
+CONSTANTS DELIM = 32  MaxArr = 2  MaxStr = 3  Alphabet = {34, 13, 10, 32, 97}
 SPECIFICATION Spec
 INVARIANT Inv
 CHECK_DEADLOCK FALSE
